@@ -182,7 +182,7 @@ class TokModel:
                 t = pr.rvalue(s["rv"])
                 if not (t[0] == "agg" and t[1].endswith("Result::Ok")):
                     continue
-                tok = t[2][0]
+                tok = P.narrow_deep(P.strip(t[2][0], calls=False))   # looks through `opt.map(..).ok_or(())` of a literal Some(..)
                 if tok[0] == "call" and tok[1] == self.token_new.path:
                     kind_t, prob_t = tok[2]
                 elif tok[0] == "agg" and tok[1].startswith("adt:" + TOKEN):
